@@ -37,6 +37,29 @@ use vharness::*;
 
 type H = OwnerAPIHandlerV3<LC, ChainNode, ExtKeychain>;
 
+/// Watchdog: a POST that is never answered (e.g. a lock taken twice) must not hang the
+/// check. While a POST is in flight IN_POST holds its start time (ms since start, +1).
+static IN_POST: std::sync::atomic::AtomicU64 = std::sync::atomic::AtomicU64::new(0);
+static CUR_CASE: std::sync::Mutex<String> = std::sync::Mutex::new(String::new());
+fn now_ms(t0: &std::time::Instant) -> u64 {
+	t0.elapsed().as_millis() as u64 + 1
+}
+fn start_watchdog(out_path: String) -> std::time::Instant {
+	let t0 = std::time::Instant::now();
+	let t = t0.clone();
+	std::thread::spawn(move || loop {
+		std::thread::sleep(std::time::Duration::from_millis(500));
+		let st = IN_POST.load(std::sync::atomic::Ordering::SeqCst);
+		if st != 0 && now_ms(&t) > st + 20_000 {
+			let case = CUR_CASE.lock().map(|c| c.clone()).unwrap_or_default();
+			let _ = std::fs::write(format!("{}.hang", out_path), case);
+			let _ = std::fs::remove_dir_all(format!("/tmp/vh_c13_{}", std::process::id()));
+			std::process::exit(3);
+		}
+	});
+	t0
+}
+
 const CLIENT_SEC: &str = "e00dcc4a009e3427c6b1e1a550c538179d46f3827a13ed74c759c860761caf1e";
 const CLIENT_PUB: &str = "03b3c18c9a38783d105e238953b1638b021ba7456d87a5c085b3bdb75777b4c490";
 
@@ -67,6 +90,7 @@ struct Sess<'a> {
 	token: Option<String>,
 	prng: Prng,
 	case_tag: String,
+	t0: std::time::Instant,
 }
 
 /// What the harness knows about the body it built (ground truth for the oracle).
@@ -286,13 +310,16 @@ impl<'a> Sess<'a> {
 	fn post(&mut self, body: Vec<u8>) -> Result<(u16, Vec<u8>), String> {
 		let h = &self.h;
 		let rt = &mut *self.rt;
-		guarded(move || {
+		IN_POST.store(now_ms(&self.t0), std::sync::atomic::Ordering::SeqCst);
+		let r = guarded(move || {
 			let req = Request::post("http://127.0.0.1:3420/v3/owner").body(Body::from(body)).unwrap();
 			let resp = rt.block_on(h.post(req)).unwrap();
 			let st = resp.status().as_u16();
 			let b = rt.block_on(hyper::body::to_bytes(resp.into_body())).unwrap();
 			(st, b.to_vec())
-		})
+		});
+		IN_POST.store(0, std::sync::atomic::Ordering::SeqCst);
+		r
 	}
 
 	fn label_of(&self, k: &SecretKey) -> i64 {
@@ -386,7 +413,8 @@ fn gate_code(v: &Value) -> Option<i64> {
 	}
 }
 
-fn run_case(rt: &mut tokio::runtime::Runtime, scen: &mut Scen, widx: usize, case: &Value, tag: &str, seed: u64) -> Value {
+fn run_case(rt: &mut tokio::runtime::Runtime, scen: &mut Scen, widx: usize, case: &Value, tag: &str, seed: u64, t0: std::time::Instant) -> Value {
+	*CUR_CASE.lock().unwrap() = case.to_string();
 	let rf = case["rf"].as_bool().unwrap_or(false);
 	let want_open = case["open"].as_bool().unwrap_or(false);
 	let inst = scen.wallets[widx].inst.clone();
@@ -417,6 +445,7 @@ fn run_case(rt: &mut tokio::runtime::Runtime, scen: &mut Scen, widx: usize, case
 		token,
 		prng: Prng::new(seed),
 		case_tag: tag.to_owned(),
+		t0,
 	};
 	let mut resolved = vec![];
 	let mut obs: Vec<Vec<i64>> = vec![];
@@ -741,6 +770,8 @@ fn main() {
 	quiet_panics();
 	let out_path = arg("out").expect("--out");
 	let mut out = Out::create(&out_path);
+	let _ = std::fs::remove_file(format!("{}.hang", out_path));
+	let t0 = start_watchdog(out_path.clone());
 	let dir = format!("/tmp/vh_c13_{}", std::process::id());
 	let mut scen = Scen::new(&dir);
 	let mut rt = tokio::runtime::Builder::new().basic_scheduler().enable_all().build().unwrap();
@@ -774,7 +805,7 @@ fn main() {
 				let _ = std::fs::remove_dir_all(format!("{}/{}", dir, scen.wallets[widx - 1].name));
 			}
 		}
-		let mut row = run_case(&mut rt, &mut scen, widx, c, &format!("{}", id), seed_from_env() ^ (id as u64 * 7919));
+		let mut row = run_case(&mut rt, &mut scen, widx, c, &format!("{}", id), seed_from_env() ^ (id as u64 * 7919), t0);
 		row["id"] = json!(id);
 		out.line(&row);
 	}
